@@ -189,6 +189,9 @@ func c06cases(env *core.Env) []c06case {
 	for i := 0; i < env.Pick(10, 60); i++ {
 		cs = append(cs, c06case{Part: "addmount", Rep: i})
 	}
+	for i := range c06faultCases() {
+		cs = append(cs, c06case{Part: "crossfault", Rep: i})
+	}
 	for i := 0; i < env.Pick(300, 4000); i++ {
 		cs = append(cs, c06case{Part: "concurrent", Rep: i})
 	}
@@ -200,7 +203,7 @@ func init() {
 		ID:    "C06",
 		Level: "exploration",
 		Rule: "twin execution: every constituent file system exists twice (twin A inside the mount FS, twin B stand-alone, cloned from A); each operation of a seeded history issued through the mount FS at path p is mirrored on twin B of the file system an independent longest-whole-element-prefix model selects, at the remainder path; afterwards every A twin must equal its B twin (so nothing else changed) and the results must agree. Rename routes both names through the model; cross-mount renames of regular files are checked against 'only at the destination with the same bytes and mode, or failed with both sides unchanged'. " +
-			"Mount-point sets: all subsets of {a, ab, a/b, a/b/c, b, c/a} up to size 2 plus 20 larger ones (quick) / up to size 4 (thorough), each repeated (the mount table's iteration order is randomised by the runtime; distinct MountPoints() orders are counted). AddMount preconditions are checked against a model, and 2..8 goroutines mounting one point are released together inside the window between the existence check and the table update (a wrapper pauses the root FS's Open), under the race detector: exactly one must succeed. Non-trivial: histories with >=1 operation routed to a non-root mount and >=1 cross-mount rename, or a concurrent AddMount group; distinct by (set, repetition)",
+			"Mount-point sets: all subsets of {a, ab, a/b, a/b/c, b, c/a} up to size 2 plus 20 larger ones (quick) / up to size 4 (thorough), each repeated (the mount table's iteration order is randomised by the runtime; distinct MountPoints() orders are counted). AddMount preconditions are checked against a model, and 2..8 goroutines mounting one point are released together inside the window between the existence check and the table update (a wrapper pauses the root FS's Open), under the race detector: exactly one must succeed. (crossfault) renames of a 16 KiB file from the file system mounted at a to the one mounted at b (equal and different relative names, nested or not, destination missing or an existing file, bystander files at the other side's relative names) with the k-th Write / short Write of the destination handle or the k-th Read of the source handle failing: the rename must fail and the snapshots of the root, source and destination file systems must equal those taken before. Non-trivial: histories with >=1 operation routed to a non-root mount and >=1 cross-mount rename, or a concurrent AddMount group; distinct by (set, repetition)",
 		Assumptions: []string{"mount.AddMount refusing '.' is configuration", "constituent file systems are mem.FS", "a cross-mount rename that fails although the model could complete it is counted, not flagged (the property allows failing with both sides unchanged)"},
 		NumCases:    func(env *core.Env) int { return len(c06cases(env)) },
 		Batch:       40,
@@ -224,6 +227,8 @@ func c06run(env *core.Env, idx int) core.CaseResult {
 		c06routeCase(env, cs, idx, &res)
 	case "addmount":
 		c06addmount(env, cs, idx, &res)
+	case "crossfault":
+		c06crossfault(env, cs, idx, &res)
 	default:
 		c06concurrent(env, cs, idx, &res)
 	}
